@@ -75,9 +75,11 @@ pub fn judge(w: &World, r: &RunResult) -> Vec<Violation> {
     let fam = s.ksf_family();
     let mut v = vec![];
     let mut seed_of: BTreeMap<Id, Vec<u8>> = BTreeMap::new();
+    let mut seed_bytes: BTreeMap<Id, Vec<u8>> = BTreeMap::new();
     let mut bytes: BTreeMap<Id, Vec<u8>> = BTreeMap::new();
     let mut pw_of_state: BTreeMap<Id, Vec<u8>> = BTreeMap::new();
-    let mut resp_key: BTreeMap<Id, (Vec<u8>, Vec<u8>)> = BTreeMap::new(); // RegResp id -> (seed, cred)
+    let mut resp_key: BTreeMap<Id, (Vec<u8>, Vec<u8>)> = BTreeMap::new(); // RegResp id -> (seed identity, cred)
+    let mut resp_seed_bytes: BTreeMap<Id, Vec<u8>> = BTreeMap::new();
     // (inputs, masking key, op)
     let mut regs: Vec<((Vec<u8>, Vec<u8>, Vec<u8>, Vec<u8>, String), Vec<u8>, usize)> = vec![];
     // ((seed, cred, request), evaluation, op)
@@ -94,9 +96,25 @@ pub fn judge(w: &World, r: &RunResult) -> Vec<Violation> {
         }
         let get = |n: &str| outs.iter().find(|(x, _)| *x == n).map(|(_, h)| h.0.clone());
         match op {
-            Op::NewSetup { out, .. } | Op::SpliceSetup { out, .. } => {
-                if let Some(st) = get("setup") {
-                    seed_of.insert(*out, st[..l.nh].to_vec());
+            // the seed is identified by the setup that drew it (a user sees setups, not
+            // seeds): independently created servers must have unrelated OPRFs, a spliced
+            // setup inherits the seed of its source
+            Op::NewSetup { out, .. } => {
+                if get("setup").is_some() {
+                    seed_of.insert(*out, (i as u64).to_be_bytes().to_vec());
+                    if let Some(st) = get("setup") {
+                        seed_bytes.insert(*out, st[..l.nh].to_vec());
+                    }
+                }
+            }
+            Op::SpliceSetup { out, seed_from, .. } => {
+                if get("setup").is_some() {
+                    if let Some(sd) = seed_of.get(seed_from).cloned() {
+                        seed_of.insert(*out, sd);
+                    }
+                    if let Some(st) = get("setup") {
+                        seed_bytes.insert(*out, st[..l.nh].to_vec());
+                    }
                 }
             }
             Op::RegStart { st, msg, pw, tape } | Op::LoginStart { st, msg, pw, tape } => {
@@ -110,6 +128,9 @@ pub fn judge(w: &World, r: &RunResult) -> Vec<Violation> {
                 if let (Some(m), Some(sd), Some(rq)) = (get("msg"), id(setup).and_then(|x| seed_of.get(&x)), id(req).and_then(|x| bytes.get(&x))) {
                     evals.push(((sd.clone(), cred.0.clone(), rq[..l.noe].to_vec()), m[..l.noe].to_vec(), i));
                     resp_key.insert(*out, (sd.clone(), cred.0.clone()));
+                    if let Some(sb) = id(setup).and_then(|x| seed_bytes.get(&x)) {
+                        resp_seed_bytes.insert(*out, sb.clone());
+                    }
                 }
             }
             Op::LoginRespond { setup, req, cred, .. } => {
@@ -124,7 +145,8 @@ pub fn judge(w: &World, r: &RunResult) -> Vec<Violation> {
                     // the unblinded formula: no blind anywhere
                     if ps == &pw.0 {
                         let spec = (|| {
-                            let key = bspec.oprf_key(sd, cr)?;
+                            let sdb = id(resp).and_then(|x| resp_seed_bytes.get(&x))?;
+                            let key = bspec.oprf_key(sdb, cr)?;
                             let dst = [b"HashToGroup-".as_slice(), &crate::spec::oprf_context_string(bspec.oprf)].concat();
                             let p = grp::hash_to_group(bspec.oprf, &[&pw.0], &dst);
                             let n = grp::mul(bspec.oprf, &p, &key)?;
